@@ -747,15 +747,25 @@ def oracle_bleput(case, res):
             break
         if "pr" in p:
             want_n.append(f"{a}.{i}={v}")
-    if got_n != want_n:
-        extra = [x for x in got_n if x not in want_n]
+    # markers (?call-with-N-ids: how deliveries were batched into calls) are compared with the model, not judged:
+    # the property is about WHAT is announced - every accepted readable item, once, in request order
+    got = [x for x in got_n if not x.startswith("?")]
+    if got != want_n:
+        extra = [x for x in got if x not in want_n]
+        missing = [x for x in want_n if x not in got]
         slug = "listener-set-wrong"
         if extra:
-            k = extra[0].split("=")[0]
-            iid = k.split(".")[1]
+            iid = extra[0].split("=")[0].split(".")[1]
             p = case["perms"][iid].split(",")
             slug = "write-only-notified" if "pr" not in p else ("read-only-notified" if "pw" not in p and "tw" not in p else "rejected-or-unattempted-notified")
-        return (slug, f"bleput: listener calls {got_n}, want {want_n} (accepted and readable, before the first rejection)")
+        elif missing:
+            # sent, accepted by the accessory, readable - and listeners never heard of it
+            slug = "accepted-not-announced-after-later-failure" if rej is not None else "accepted-not-announced"
+        elif sorted(got) == sorted(want_n):
+            slug = "listener-order-wrong"
+        why = (f"; the call then failed with PDU status {rej} on a later item, but the earlier writes had been accepted by the accessory"
+               if rej is not None and missing and not extra else "")
+        return (slug, f"bleput: listener calls {got}, want {want_n} (accepted and readable, before the first rejection){why}")
     if rej is not None:
         if out.startswith("ok"):
             return ("rejection-hidden", f"bleput: an attempted write was rejected with PDU status {rej} but the call returned {out}")
